@@ -71,8 +71,9 @@ class Top(Elaboratable):
 class ManualRun:
     """Runs `body(self)` as the only testbench of a Simulator over Top(dut); never awaits."""
     def __init__(self, dut, domains, sched_mode="insertion", sched_seed=0, extra_submodules=(),
-                 capture_stdout=False, extra_lines=None):
+                 capture_stdout=False, extra_lines=None, processes=()):
         self.top = Top(dut, domains, extra_submodules, extra_lines)
+        self.processes = list(processes)      # async functions added with Simulator.add_process() before the testbench
         self.levels = {line: 0 for line in self.top.lines}
         self.sched_mode = sched_mode
         self.sched_seed = sched_seed
@@ -126,6 +127,8 @@ class ManualRun:
                 async def testbench(ctx):
                     self.ctx = ctx
                     self._body(self)
+                for proc in self.processes:
+                    self.sim.add_process(proc)
                 self.sim.add_testbench(testbench)
                 self.sim.run()
             finally:
